@@ -92,7 +92,10 @@ def hourly_index(tz, start, days):
 
 
 def synth_hourly(tz="America/Chicago", start="2018-01-01", days=365, seed=0, ghi=False, noise=0.05,
-                 mean=55.0, amp=25.0, scale=1.0):
+                 mean=55.0, amp=25.0, scale=1.0, irregular=False, occupancy=False):
+    """irregular: every (month, weekday) has its own random-walk load shape (no clean weekday/weekend structure, so the
+    temporal clustering has several nearly equally good partitions - the seed matters); occupancy: a supplemental
+    time-series column that drives part of the load.  Both draw from the generator only when enabled."""
     rng = np.random.default_rng(seed) if not isinstance(seed, np.random.Generator) else seed
     idx = hourly_index(tz, start, days)
     doy = idx.dayofyear.values
@@ -103,6 +106,13 @@ def synth_hourly(tz="America/Chicago", start="2018-01-01", days=365, seed=0, ghi
     y = shape * (1.0 + 0.05 * np.maximum(50 - T, 0) + 0.04 * np.maximum(T - 68, 0)) * scale
     y = y * (1 + rng.normal(0, noise, len(idx)))
     df = pd.DataFrame({"temperature": T, "observed": y}, index=idx)
+    if irregular:
+        shapes = rng.normal(0, 1, (13, 7, 24)).cumsum(axis=2) * 0.1
+        df["observed"] = np.clip(df["observed"] + shapes[idx.month.values, dow, hod] * scale, 0.05 * scale, None)
+    if occupancy:
+        occ = ((hod >= 8) & (hod <= 18) & (dow < 5)).astype(float) + rng.normal(0, 0.05, len(idx))
+        df["observed"] = df["observed"] + 0.5 * occ * scale
+        df["occupancy"] = occ
     if ghi:
         df["ghi"] = np.maximum(0, 800 * np.sin(np.pi * (hod - 6) / 12)) * (0.6 + 0.4 * np.sin(2 * np.pi * (doy - 80) / 365))
         df["observed"] = df["observed"] - df["ghi"] / 1000 * scale
